@@ -17,7 +17,7 @@ RULE = (
     "(shape, observed pattern, k, batch set); non-trivial = the batch is non-empty or some sample has fewer than k plates"
 )
 ASSUMPTIONS = ["states are memoised on the set of batch plates (quick: <=9 plates; thorough: always) or on per-sample batch counts (larger shapes)"]
-REQUIRED = {"multi_sample_refusals_after_earlier_calls": {"quick": 40, "thorough": 300}, "walk_steps_with_mostly_posinf_scores": {"quick": 80, "thorough": 1200}, "screens_with_interleaved_plate_ids": {"quick": 60, "thorough": 400}, "holders_not_in_plate_id_order": {"quick": 1000, "thorough": 8000}, "states_checked": {"quick": 3000, "thorough": 20000}, "walk_steps": {"quick": 300, "thorough": 5000}, "multi_sample_refusals": {"quick": 40, "thorough": 250}, "multi_sample_layout_1": {"quick": 6, "thorough": 40}, "batches_revealed_in_place": {"quick": 60, "thorough": 800}}
+REQUIRED = {"batches_given_as_tuple_set_frozenset_or_dict_keys": {"quick": 100, "thorough": 1500}, "multi_sample_refusals_after_earlier_calls": {"quick": 40, "thorough": 300}, "walk_steps_with_mostly_posinf_scores": {"quick": 80, "thorough": 1200}, "screens_with_interleaved_plate_ids": {"quick": 60, "thorough": 400}, "holders_not_in_plate_id_order": {"quick": 1000, "thorough": 8000}, "states_checked": {"quick": 3000, "thorough": 20000}, "walk_steps": {"quick": 300, "thorough": 5000}, "multi_sample_refusals": {"quick": 40, "thorough": 250}, "multi_sample_layout_1": {"quick": 6, "thorough": 40}, "batches_revealed_in_place": {"quick": 60, "thorough": 800}}
 
 
 def build_screen(Screen, shape, observed_plates=(), multi=None, multi_where=2, perm=None):
@@ -123,6 +123,11 @@ def run_shard(rec, tier, seed, shard, nshards):
             bids = list(batch)
             if as_array and len(bids) <= 1:
                 bids = np.array(bids, dtype=int)  # e.g. np.array([0]): a falsy but non-empty batch
+            elif as_array and len(bids) >= 2:
+                # the same batch as another kind of collection
+                how_ = int(order_rng.integers(4))
+                bids = [tuple(bids), set(bids), frozenset(bids), dict.fromkeys(bids).keys()][how_]
+                rec.count("batches_given_as_tuple_set_frozenset_or_dict_keys")
             sel = select_next_plate(holder_for(unobserved, best, scores), screen, policy, batch_plate_ids=bids, rng=np.random.default_rng(0))
         finally:
             del policy.filter_eligible_plates
